@@ -39,6 +39,9 @@ def observe(R, n, seed=None, nb=200):
 
 def brief(case):
     """replay data of one history: initial world + operations (without the bulky snapshots)"""
+    if case.get("kind") == "dynamic_timing":
+        return {"seed": case["seed"], "index": case["index"], "kind": "dynamic_timing", "dynamic_timing": case["dynamic_timing"],
+                "how": "harness/cmd/c08/dyntime.go: object created with these parameters, real submit + yes votes, end blocks at the listed times"}
     if case.get("kind") == "scenario":
         return {"seed": case["seed"], "index": case["index"], "kind": "scenario", "scenario": case["scenario"],
                 "how": "harness/cmd/c08/scenarios.go: submit while every step would succeed, pass, break the scripted step, enact"}
@@ -54,6 +57,7 @@ def report(R, cases, viol):
                         % (c, cases[idx].get("kind"), idx, cases[idx]["seed"],
                            (" boundary spec " + json.dumps(cases[idx]["boundary"])) if cases[idx].get("boundary") else "",
                            json.dumps(cases[idx]["scenario"] if cases[idx].get("kind") == "scenario" else
+                                      cases[idx]["dynamic_timing"] if cases[idx].get("kind") == "dynamic_timing" else
                                       [o for o in brief(cases[idx])["ops"] if o.get("applied") or o["op"] == "submit" and o["result"] == "ok"])[:600]),
                         brief(cases[idx]))
 
